@@ -7,7 +7,7 @@ import verifylib as V
 ASSUME = [
     "index values and IDs are drawn from {x,y} (unique secondary index: id+a, empty for one object) and {\"\",a,ab,b,.,..}: byte order of the real keys equals segment-wise order for these (checked per run by the raw key dump comparison); values containing '/' or bytes below '/' are not explored",
     "a history's state is carried only by the Bolt file: tree edges restore the file content of the parent node and reopen the store (IndexedStore keeps no state in memory); random histories run on one open handle as a cross-check",
-    "injected failures are errors returned by tx.Put/tx.Delete (k-th write of a transaction) or by tx.Commit; process crashes inside a Bolt commit are Bolt's own guarantee and are not exercised",
+    "injected failures are errors returned by tx.Put/tx.Delete (k-th write of a transaction) or by tx.Commit (which rolls back itself, as bbolt does), and panics of the update function after k writes recovered by the caller; process crashes inside a Bolt commit are Bolt's own guarantee and are not exercised",
     "path.Match is trusted; the specification's match table is compared with the table Go computes in every run",
     "TLC fingerprint collisions are negligible; the libflux link stub is never executed",
 ]
@@ -132,7 +132,7 @@ def _expect_counterexample(sc, R, cfg, inv):
     if res["violated"] != inv:
         raise V.Broken("model %s: expected a counterexample to %s for the pinned code variant, got %r (invariant vacuous?)"
                        % (cfg, inv, res["violated"]))
-    V.log("model %s: counterexample to %s as expected for the pre-fix code variant (%d states)" % (cfg, inv, res["distinct"]))
+    V.log("model %s: counterexample to %s as expected for the defective code variant (%d states)" % (cfg, inv, res["distinct"]))
     return res["distinct"]
 
 
@@ -149,6 +149,7 @@ def run(sc, tier, seed):
     pinned = {
         "path.Join index keys (JoinCollapse)": _expect_counterexample(sc, R, "IndexedStore_pinned_join.cfg", "Bijection"),
         "limit<0 ignores pattern/offset (NoLimitRaw)": _expect_counterexample(sc, R, "IndexedStore_pinned_nolimit.cfg", "ListIsSlice"),
+        "a panicking update function is committed (PanicCommits)": _expect_counterexample(sc, R, "IndexedStore_pinned_panic.cfg", "FailedOpLeavesNoTrace"),
     }
     # B1: history trees + random histories on the real store
     out, meta = V.run_driver(sc, "c15", tier, seed, timeout=2400)
